@@ -52,6 +52,7 @@ type HStep struct {
 	Nil   bool        `json:"nil,omitempty"`
 	Data  bool        `json:"data,omitempty"`
 	Unit  ref.FeeUnit `json:"unit,omitempty"`
+	Tag   int         `json:"tag,omitempty"` // quote: FeeType field of the registered fee object (ref.FeeTag*)
 	Utxos []HU        `json:"utxos,omitempty"`
 	Rel   string      `json:"rel,omitempty"` // what the generator aimed at (informational)
 }
@@ -318,13 +319,9 @@ func hLibStep(tx *bt.Tx, fq *bt.FeeQuote, q ref.FeeQuote, m ref.Tx, st HStep) er
 		tx.Outputs = tx.Outputs[:st.N]
 	case "quote":
 		if st.Data {
-			fq.AddQuote(bt.FeeTypeData, &bt.Fee{FeeType: bt.FeeTypeData,
-				MiningFee: bt.FeeUnit{Satoshis: st.Unit.Sat, Bytes: st.Unit.Bytes},
-				RelayFee:  bt.FeeUnit{Satoshis: q.DataRelay.Sat, Bytes: q.DataRelay.Bytes}})
+			fq.AddQuote(bt.FeeTypeData, ref.FeeLibFee(bt.FeeTypeData, st.Unit, q.DataRelay, st.Tag))
 		} else {
-			fq.AddQuote(bt.FeeTypeStandard, &bt.Fee{FeeType: bt.FeeTypeStandard,
-				MiningFee: bt.FeeUnit{Satoshis: st.Unit.Sat, Bytes: st.Unit.Bytes},
-				RelayFee:  bt.FeeUnit{Satoshis: q.StdRelay.Sat, Bytes: q.StdRelay.Bytes}})
+			fq.AddQuote(bt.FeeTypeStandard, ref.FeeLibFee(bt.FeeTypeStandard, st.Unit, q.StdRelay, st.Tag))
 		}
 	}
 	return nil
@@ -383,7 +380,7 @@ func checkHistory(ctx *pbt.Ctx, c HistCase) error {
 	if err != nil {
 		return fmt.Errorf("harness: %v", err)
 	}
-	fq := ref.FeeQuoteToLib(q)
+	fq := ref.FeeQuoteToLibTagged(q)
 	ctx.Labelf("steps=%d", len(c.Steps))
 	nChange, nAdded := 0, 0
 	prevKind := "start"
@@ -476,6 +473,11 @@ func checkHistory(ctx *pbt.Ctx, c HistCase) error {
 				sawQuery = true
 			case "quote":
 				sawQuote = true
+				if st.Tag == ref.FeeTagOther {
+					ctx.Label("quote-step:fee-type-field=other-type")
+				} else if st.Tag == ref.FeeTagEmpty {
+					ctx.Label("quote-step:fee-type-field=empty")
+				}
 			}
 			// harness consistency: the edit did to the object what it did to the model
 			if got := ref.FromLib(tx); !bytes.Equal(ref.Encode(got, true), ref.Encode(m, true)) {
@@ -622,6 +624,7 @@ func genHEdit(t *rapid.T, m ref.Tx) HStep {
 	case "quote":
 		st.Data = rapid.Bool().Draw(t, "data")
 		st.Unit = genUnit(t, "unit")
+		st.Tag = genFeeTag(t, "tag")
 	case "fund":
 		n := rapid.IntRange(0, 3).Draw(t, "nutxo")
 		for i := 0; i < n; i++ {
